@@ -55,7 +55,7 @@ SIGMA = ["a", " ", "\u3042", "\n", "b", "\u0301"]
 # families of gen.families(tier) used by the tree part, with their A-set
 TREE_FAMILIES = {
     "quick": {"D1": A_FULL, "D2": A_SHORT, "D2x1": A_SHORT, "CH3": A_SHORT, "ROT": A_SHORT},
-    "thorough": {"D1": A_FULL, "D1x1": A_FULL, "D1x2": A_SHORT, "D2": A_SHORT, "D2x2": A_SHORT, "D3": A_SHORT,
+    "thorough": {"D1": A_FULL, "D1x1": A_FULL, "D2": A_SHORT, "D2x2": A_SHORT, "D3": A_SHORT,
                  "CH3": A_FULL, "CH4": A_SHORT},
 }
 TREES_PER_SHARD = {"quick": 500, "thorough": 2500}
